@@ -52,13 +52,15 @@ let parse_fk () : rfk =
 
 let parse_tdef () : tdef =
   let n = hb (next ()) in
+  let strict = next_bool () in
+  let worowid = next_bool () in
   let nc = next_int () in
   let cols = times nc parse_col in
   let nf = next_int () in
   let fks = times nf parse_fk in
   let ni = next_int () in
   let idx = times ni (fun () -> hb (next ())) in
-  { td_name = n; td_cols = cols; td_fks = fks; td_idx = idx }
+  { td_name = n; td_cols = cols; td_fks = fks; td_idx = idx; td_strict = strict; td_without_rowid = worowid }
 
 let parse_tchange () : tchange =
   match next () with
@@ -128,6 +130,10 @@ let show_table (before : etable list) (t : etable) : string =
   Printf.sprintf "tbl %s cols=%s n=%d rows=%s" (hexs (string_of_bytes t.et_name)) (String.concat "," cols)
     (Stdlib.List.length rows) (String.concat ";" rows)
 
+let show_opts (t : tdef) : string =
+  match Stdlib.List.map (function OWithoutRowid -> "W" | OStrict -> "S") (table_options t) with
+  | [] -> "-" | l -> String.concat "" l
+
 let run_apply id =
   let fk = next_bool () in
   let tx = next_int () in          (* 0 on the connection, 1 through OpenTx, 2 inside a plain transaction *)
@@ -142,6 +148,9 @@ let run_apply id =
   let rec take n l = if n <= 0 then [] else match l with [] -> [] | x :: r -> x :: take (n - 1) r in
   let show head d' =
     Printf.printf "%s res %s\n" id head;
+    (match planChanges cs with
+     | POk p -> Stdlib.List.iter (function SCreateTable t -> Printf.printf "%s create %s %s\n" id (hexs (string_of_bytes t.td_name)) (show_opts t) | _ -> ()) p
+     | PErr _ -> ());
     let ts = Stdlib.List.sort (fun a b -> compare (string_of_bytes a.et_name) (string_of_bytes b.et_name)) d'.d_tables in
     Stdlib.List.iter (fun t -> Printf.printf "%s %s\n" id (show_table tabs t)) ts in
   let rec nat_of_int i = if i <= 0 then O else S (nat_of_int (i - 1)) in
@@ -193,7 +202,7 @@ let hn b = hexs (string_of_bytes b)
 
 let show_stmt = function
   | SPragmaFK on -> if on then "PF 1" else "PF 0"
-  | SCreateTable t -> "CT " ^ hn t.td_name
+  | SCreateTable t -> "CT " ^ hn t.td_name ^ " " ^ show_opts t
   | SDropTable n -> "DT " ^ hn n
   | SRenameTable (a, b) -> "RT " ^ hn a ^ " " ^ hn b
   | SCopyRows (to_t, toC, fromC, from_t) ->
